@@ -27,21 +27,21 @@ def run(ctx):
             ctx.traces_ok += 1
     cases = [r for r in recs if "c" in r]
     if q:
-        cases = [r for r in cases if not r.get("big") and not r.get("fast") and not r.get("tiny") and not r.get("pp")]
+        cases = [r for r in cases if not r.get("big") and not r.get("fast") and not r.get("tiny") and not r.get("pp") and not r.get("drain")]
         # every limit pair at least once, both directions and kinds
         crowd = [r for r in cases if r["c"]["conns"] > 4 and r["exp"]["limited"]]
         churn = [r for r in cases if r["c"].get("churn") and r["exp"]["limited"]]
         cases = vlib.sample_list(ctx.rng, [r for r in cases if r["c"]["conns"] <= 3], 12)
         cases += ([r for r in crowd if r["c"]["dir"] == "download"][:1] + [r for r in crowd if r["c"]["dir"] == "upload"][-1:])
         cases += ([r for r in churn if r["c"]["dir"] == "download"][:1] + [r for r in churn if r["c"]["dir"] == "upload"][-1:])
-        cases += [r for r in recs if r.get("big") or r.get("fast") or r.get("tiny") or r.get("pp")]
+        cases += [r for r in recs if r.get("big") or r.get("fast") or r.get("tiny") or r.get("pp") or r.get("drain")]
     trace = os.path.join(ctx.work, "rate.ndjson")
     out = ctx.run_vh(binp, ["c20", "--arg", "trace=" + trace], cases=cases, timeout=3000)
     out, crashed = ctx.nocrash(out, "C20:crash")
     for r in out:
         ctx.evaluations += 1
         c = r["c"]
-        ctx.nontrivial.add("%s/%s/%s/%s/%s/%s/%s" % (c["read"], c["write"], c["conns"], c["dir"], c["kind"], c.get("churn"), str(r.get("big")) + str(r.get("tiny")) + str(r.get("pp"))))
+        ctx.nontrivial.add("%s/%s/%s/%s/%s/%s/%s" % (c["read"], c["write"], c["conns"], c["dir"], c["kind"], c.get("churn"), str(r.get("big")) + str(r.get("tiny")) + str(r.get("pp")) + str(r.get("drain"))))
         if not r["ok"]:
             w = r["why"]
             k = ("too-fast" if "faster than" in w else "throttled-unlimited" if "unlimited" in w else "altered" if "altered" in w else "incomplete")
